@@ -301,7 +301,10 @@ def run_one(chk, inp, pvspec, ctx, validate_only=False, extra=None, restaged=Fal
     # "restaged-same": as restaged, but the earlier version differs in its bases only (same lengths, same N runs - a
     # polished assembly), so the second run writes the same file set and every file in the directory is its output
     same_layout = mode == "restaged-same"
-    restaged = mode in ("restaged", "restaged-same")
+    # "half-updated": as restaged, but the FASTA is clearly newer than the old cache, and a re-indexing run died after it
+    # had written the new .fai and before the .agp (fresh .fai, old .agp)
+    half = mode == "half-updated"
+    restaged = mode in ("restaged", "restaged-same", "half-updated")
     case = ["cli", pv.jsonable(pvspec), pv.jsonable(inp)] + ([mode] if mode else [])
     ctx.cur = case
     ctx.evaluations += 1
@@ -330,7 +333,17 @@ def run_one(chk, inp, pvspec, ctx, validate_only=False, extra=None, restaged=Fal
                 ctx.count("restaged_without_cache_files")
             seqs = cli.write_fasta(fa, inp, width=7)
             mt = os.stat(fa).st_mtime_ns
-            for p in (fa, d / "in" / "asm.fa.fai", d / "in" / "asm.fa.agp"):
+            if half:
+                from tola.fasta.index import FastaIndex, index_fasta_file
+
+                old_agp = os.stat(d / "in" / "asm.fa.agp").st_mtime_ns if (d / "in" / "asm.fa.agp").exists() else mt
+                mt = max(mt, old_agp) + 5_000_000_000
+                os.utime(fa, ns=(mt, mt))
+                fi_ = FastaIndex(fa)
+                fi_.index, _asm = index_fasta_file(fa)
+                fi_.write_index()
+                os.utime(d / "in" / "asm.fa.fai", ns=(mt + 5_000_000_000, mt + 5_000_000_000))
+            for p in (fa, d / "in" / "asm.fa.fai", d / "in" / "asm.fa.agp") if not half else ():
                 if p.exists():
                     os.utime(p, ns=(mt, mt))
             ctx.count("cli_runs_restaged")
@@ -373,6 +386,8 @@ def run_shard(chk, shard, ctx, validate_only=False, extra=None):
                 run_one(chk, inp, pvspec, ctx, validate_only=validate_only, extra=extra, restaged=True)
             if (i // chunks) % 6 == 3:
                 run_one(chk, inp, pvspec, ctx, validate_only=validate_only, extra=extra, restaged="warm-crlf")
+            if (i // chunks) % 6 == 1:
+                run_one(chk, inp, pvspec, ctx, validate_only=validate_only, extra=extra, restaged="half-updated")
             if (i // chunks) % 6 == 5:
                 run_one(chk, inp, pvspec, ctx, validate_only=validate_only, extra=extra, restaged="restaged-same")
     ctx.count("cli_runs", sum(1 for i in range(len(cs)) if i % chunks == chunk))
